@@ -14,7 +14,7 @@ RULE = ("breadth-first exploration of ALL histories up to the depth bound over a
         "bar-by-bar, detokenise) on a workspace (sequence A, sequence B, token list); invariant on every state: every time "
         "value in both views of A and B is of type int and every tick-carrying token renders an integer; "
         "non-trivial = the transition pads a bar, splits with a remainder, splits into bars or builds a composition")
-SCALE = ('two long seeds (14 and 16 bars with rests of 10 and 11 bars beside tracks of 2-3 bars) explored to depth 2; split into 14 x 36 and 12 x 96 equal parts re-joined by concatenation')
+SCALE = ('two long seeds (14 and 16 bars with rests of 10 and 11 bars beside tracks of 2-3 bars) explored to depth 2; split into 14 x 36 and 12 x 96 equal parts re-joined by concatenation; scale(1); detokenising hand-edited streams with a signature token behind a rest / in front of a bar token / behind a bar token')
 ASSUMPTIONS = ["bool and numpy integer types do not count as 'integer type' for ticks"]
 REQUIRED_FLAGS = ["bar_padded", "split_with_remainder", "tokens_checked", "detokenised", "bars_split", "composition_built",
                   "scaled", "wrapped_transpose", "split_many_equal_parts", "detokenised_edited_stream"]
